@@ -133,6 +133,15 @@ func (c20) Generate(r *engine.Rand, index int, tier string) *engine.Scenario {
 			at += uint64(r.Range(1, 20000))
 			add(nrx4[xch], 0xc0|r.Byte()&7)
 			at += uint64(r.Range(1, 70000))
+			if r.Bool() {
+				// one length clock left, length counting switched off and on again without a trigger (the
+				// switch-on may clock the counter at once and end the note): that channel's business only
+				add(nrx1[xch], 0xff)
+				add(nrx4[xch], 0x00)
+				at += uint64(r.Range(1, 9000))
+				add(nrx4[xch], 0x40)
+				at += uint64(r.Range(1, 9000))
+			}
 		}
 	}
 	for i := 0; i < n; i++ {
